@@ -18,6 +18,21 @@ claimed = {
  "C17": ("exploration", "bounded exhaustive enumeration of diagnostics PDUs through the public DP path against a reference block parser",
    "All 2^16 flag words, all PDU lengths 0..244 x buffer sizes, all 1- and 2-byte extended-diagnostics strings and all sequences of <=3 catalogue blocks cut at every length are delivered through DpMaster::receive_reply (three peripheral states) and DpScanner; flags/ident/master address, the storage rule and the block iteration (incl. Debug formatting) are compared with a reference parser.",
    "Trusted: reference block parser; length-1 blocks accepted either way; permanent bit may be stripped.", "6 C17"),
+ "C03": ("model_checking", "explicit-state BFS over the joint state of the real DpMaster and reference slaves under an adversarial environment, with a bring-up phase automaton as oracle",
+   "Breadth-first search of the joint state space (real DpMaster + reference DP slaves + outstanding request + bring-up phase automaton) under all environment answers (answered, request/reply lost, token lost, power cycle, fault flags, 20 catalogue replies, user calls), deduplicated on a canonical fingerprint; plus an option grid that checks the Set_Prm/Chk_Cfg bytes against a reference encoding and all 65000 watchdog values.",
+   "Trusted: reference slave and the emulated FDL reply admission; quick tier is depth-bounded (9 / 6), thorough runs to closure or cap.", "6 C03"),
+ "C04": ("model_checking", "explicit-state BFS over real DpMaster x reference slave x process images for all boundary length pairs, images compared around every callback",
+   "BFS for all 49 (output,input) length pairs from {0,1,2,8,9,243,244}^2 with user writes, input changes, lost replies and 14 malformed replies as transitions; pi_i/pi_q are read before and after every callback and compared with the wire bytes.",
+   "Trusted: reference slave; payloads limited to 3-4 patterns; FDL-level admission (wrong source/destination) is covered by C15 under the real FDL.", "6 C04"),
+ "C07": ("model_checking", "bounded liveness: fault-free and silence/return continuations executed from every state of the explicit-state BFS",
+   "From every state the BFS of the C03 world discovers, two deterministic continuations run on the real master: fault-free (must reach running + DataExchanged within 12+4*(retry+1) requests per peripheral and stay) and silence-then-return of peripheral 0 (Offline, then Online, Configured, running).",
+   "Trusted: reference slave incl. FCB retry detection; the bound B is from DESIGN 6 C07.", "6 C07"),
+ "C08": ("model_checking", "explicit-state BFS with a per-destination frame-count-bit monitor as history variables",
+   "BFS over the joint state incl. the per-destination FCB/retry monitor for max_retry_limit 1,2(,3,15) and 1..3 peripherals with user calls at every point; the oracle reads only function-code bytes, SAPs and Offline events.",
+   "Trusted: the notion of an 'acceptable reply' per service encoded in the monitor (diag: well-formed diag response; Set_Prm/Chk_Cfg: SC; Data_Exchange: OK/DL/DH of the configured length or SC).", "6 C08"),
+ "C14": ("model_checking", "explicit-state BFS with cycle/turn monitor and life-cycle automata as history variables, events taken after every callback",
+   "BFS for 0..4 peripherals in Vec and fixed[4] storage, global control once or every visit, high-priority-only visits, with lost/rejected replies, power cycles, long token absences and user calls; slot order, one turn per cycle, cycle_completed accounting and the event life-cycle vs is_live()/is_running() are checked at every callback; hangs by watchdog.",
+   "Trusted: reference slave; sparse storage slots cannot be produced through the public API and are not generated.", "6 C14"),
 }
 not_applicable_reasons = {}
 
